@@ -309,6 +309,10 @@ class Tree:
             outs.append((v, self.rng.randrange(0, len(self.keys.pks))))
             rest -= v
         outs.append((rest, self.rng.randrange(0, len(self.keys.pks))))
+        if self.rng.random() < 0.25 and outs[-1][0] >= 2:
+            # twins: the same amount to the same key twice in one transaction (two outputs that compare equal)
+            v_, k_ = outs.pop()
+            outs += [(v_ // 2, k_), (v_ // 2, k_)] + ([(v_ % 2, k_)] if v_ % 2 else [])
         return make_tx(self.keys, self.utxo(parent_hash), [r for r, _ in chosen], outs)
 
     def random_txs(self, parent_hash, n):
